@@ -27,6 +27,10 @@ C12Cases ==
   (* module, other version numbers, the same words under :capability:), next to every subset of the real ones      *)
   \cup {[base |-> b, sid |-> "1", ns |-> n, shape |-> "ok", order |-> "before", extra |-> x] :
       b \in SUBSET Versions, n \in {"default", "prefixed"}, x \in Lookalikes}
+  (* a server that lists hundreds or thousands of YANG modules, one capability each: a hello of 30 KB .. 2 MB *)
+  \cup {[base |-> b, sid |-> "1", ns |-> n, shape |-> "ok", order |-> o, extra |-> x] :
+      b \in {{"1.0"}, Versions, {"1.1"}}, n \in {"default", "prefixed"}, o \in {"before", "after"},
+      x \in {"modules-400", "modules-900", "modules-1000", "modules-4000", "modules-30000"}}
   (* what stands around the root element of a well-formed hello: XML declarations in their spellings, comments *)
   \cup {[base |-> b, sid |-> s, ns |-> n, shape |-> "ok", order |-> o, extra |-> "none", decl |-> d] :
       b \in {{"1.0"}, Versions, {"1.1"}}, s \in {"1", "zero"}, n \in {"default", "prefixed"}, o \in {"before", "after"},
@@ -36,7 +40,10 @@ C12Cases ==
 Rewrites == {"pfx", "ws", "pad", "cmt", "attr", "decl", "empt"}
 RECURSIVE SetSeq(_)
 SetSeq(S) == IF S = {} THEN <<>> ELSE LET x == CHOOSE y \in S : TRUE IN <<x>> \o SetSeq(S \ {x})
-C13Cases == {SetSeq(s) : s \in SUBSET Rewrites}
+(* ... and a comment in the middle of the text of a token-valued element (<session-id>47<!-- -->11</session-id>): on   *)
+(* its own and with one other rewrite, not in every composition (what it breaks is a recorded finding, and it     *)
+(* must not hide what the other compositions show)                                                               *)
+C13Cases == {SetSeq(s) : s \in SUBSET Rewrites} \cup {<<"cmtmid">>} \cup {<<"cmtmid", f>> : f \in {"pfx", "ws", "attr"}}
 
 (* C10: every text-valued parameter x every string of up to K1 character classes *)
 Params == {"persist", "persist-id", "cancel-persist-id", "log", "log-after-failed-write", "instance", "xpath", "xpath-get", "url-edit", "url-delete", "url-host",
@@ -58,6 +65,8 @@ C14Cases ==
   \cup {[tmpl |-> t, op |-> "splice", p |-> p, q |-> q, seed |-> 0] : t \in Templates, p \in 0..7, q \in 1..8}
   \cup {[tmpl |-> t, op |-> o, p |-> 0, q |-> 0, seed |-> 0] : t \in Templates, o \in {"none", "dupelem", "hugeint", "wrongns", "deep", "big", "empty"}}
   \cup {[tmpl |-> t, op |-> "leaftext", p |-> p, q |-> q, seed |-> 0] : t \in Templates, p \in 0..8, q \in 0..7}
+  (* well-formed replies that name a request nobody made *)
+  \cup {[tmpl |-> t, op |-> o, p |-> 0, q |-> 0, seed |-> 0] : t \in Templates \ {"hello"}, o \in {"strayid-far", "strayid-next", "strayid-zero", "strayid-max"}}
   \cup {[tmpl |-> "hello", op |-> "query", p |-> 0, q |-> q, seed |-> 0] : q \in 0..10}
   \cup {[tmpl |-> t, op |-> "random", p |-> 0, q |-> 0, seed |-> sd] : t \in Templates, sd \in 1..K1}
   \cup {[tmpl |-> t, op |-> o, p |-> p, q |-> q, seed |-> 0] : t \in NonAscii, o \in {"trunc@", "bad@"}, p \in 0..10, q \in 0..63}
